@@ -17,8 +17,14 @@ func (this X12Encoder) getEncodingMode() int {
 func (this X12Encoder) encode(context *EncoderContext) error {
 	//step C
 	buffer := make([]byte, 0)
+	startPos := context.pos
 	for context.HasMoreCharacters() {
 		c := context.GetCurrentChar()
+		if !isNativeX12(c) && context.pos > startPos {
+			// not encodable in X12: leave the mode here, the pending characters
+			// of an incomplete triplet are rewound by x12HandleEOD
+			break
+		}
 		context.pos++
 
 		var e error
@@ -73,7 +79,8 @@ func x12HandleEOD(context *EncoderContext, buffer []byte) error {
 	count := len(buffer)
 	context.pos -= count
 	if context.GetRemainingCharacters() > 1 || available > 1 ||
-		context.GetRemainingCharacters() != available {
+		context.GetRemainingCharacters() != available ||
+		(context.HasMoreCharacters() && HighLevelEncoder_isExtendedASCII(context.GetCurrentChar())) {
 		context.WriteCodeword(HighLevelEncoder_X12_UNLATCH)
 	}
 	if context.GetNewEncoding() < 0 {
